@@ -56,6 +56,19 @@ def _restored_on_all_paths(b, bi, targets, vec_locals):
                 tt = b.blocks[x]["term"]
                 if tt["k"] == "call" and callee_is(tt, "vec::Vec::len", "slice::<impl [T]>::len"):
                     tests_len = True
+            if not tests_len:
+                # `for _ in v.len()..N { v.insert(0, 0) }`: a counted loop whose bounds come from the length
+                from .mirutil import origin
+                for bj, sj, s2 in b.stmts():
+                    if s2["k"] == "assign" and s2["rv"]["k"] == "aggregate" and s2["rv"].get("adt", "").endswith("ops::Range") and b.cfg.dominates(bj, li.header):
+                        for o in s2["rv"]["ops"]:
+                            oo = origin(b, o)
+                            if oo[0] == "call" and callee_is(oo[2], "vec::Vec::len", "slice::<impl [T]>::len"):
+                                # this range feeds the loop
+                                from .mirutil import iter_source
+                                src = iter_source(b, li)
+                                if src is not None and not src.get("p") and src["l"] == s2["place"]["l"]:
+                                    tests_len = True
             if tests_len:
                 guard_blocks.append(li.header)
     reach = cfg.reachable_from([bi], avoid_blocks=guard_blocks)
